@@ -51,6 +51,10 @@ type RecordingLocker struct {
 	Steer     map[int]int
 	SteerWait time.Duration
 	KeyName   func([48]byte) string
+	// OnLocked, if set, is called (outside the recorder's mutex) each time a request has taken a key:
+	// nth counts the request's acquisitions in this round from 1.
+	OnLocked func(req int, nth int)
+	nLocked  map[int]int
 }
 
 // NewRecordingLocker wraps inner.
@@ -73,6 +77,7 @@ func (l *RecordingLocker) Reset() {
 	l.gate = map[int]bool{}
 	l.first = map[int]bool{}
 	l.Steer = map[int]int{}
+	l.nLocked = map[int]int{}
 	l.mu.Unlock()
 }
 
@@ -125,7 +130,15 @@ func (l *RecordingLocker) Lock(key [48]byte) {
 	wasFirst := !l.first[req]
 	l.first[req] = true
 	rival, steer := l.Steer[req]
+	if l.nLocked == nil {
+		l.nLocked = map[int]int{}
+	}
+	l.nLocked[req]++
+	nth, hook := l.nLocked[req], l.OnLocked
 	l.mu.Unlock()
+	if hook != nil {
+		hook(req, nth)
+	}
 	if wasFirst && steer {
 		deadline := time.Now().Add(l.SteerWait)
 		for time.Now().Before(deadline) {
